@@ -1,0 +1,23 @@
+//go:build verif
+
+// Lemma functions for /verif/govc: executable statements of spec-level facts, verified
+// against the contracts of the functions they call (never compiled without the verif tag).
+
+package openflow13
+
+// C16: offset/width word round trip.
+func lemmaOfsNbitsRoundTrip(ofs, nBits uint16) (uint16, uint16) {
+	w := encodeOfsNbits(ofs, nBits)
+	return decodeOfs(w), decodeNbits(w)
+}
+
+// C16: a range given by first/last bit and the same range given by offset/width agree
+// on the offset/width word and on the mask, and the word decodes to offset and width.
+func lemmaRangeTwoDescriptions(first, last int) (w1, w2 uint16, m1, m2 uint32, o1, n1 uint16) {
+	a := NewNXRange(first, last)
+	b := NewNXRangeByOfsNBits(first, last-first+1)
+	w1, w2 = a.ToOfsBits(), b.ToOfsBits()
+	m1, m2 = a.ToUint32Mask(), b.ToUint32Mask()
+	o1, n1 = decodeOfs(w1), decodeNbits(w1)
+	return
+}
